@@ -2351,6 +2351,7 @@ DLLIMPORT int cfg_setstr(cfg_t *cfg, const char *name, const char *value)
 static int cfg_addlist_internal(cfg_opt_t *opt, unsigned int nvalues, va_list ap)
 {
 	int result = CFG_FAIL;
+	int failed = 0;
 	unsigned int i;
 
 	for (i = 0; i < nvalues; i++) {
@@ -2377,14 +2378,17 @@ static int cfg_addlist_internal(cfg_opt_t *opt, unsigned int nvalues, va_list ap
 			result = CFG_SUCCESS;
 			break;
 		}
+		if (result != CFG_SUCCESS)
+			failed = 1;
 	}
 
-	return result;
+	return failed ? CFG_FAIL : result;
 }
 
 DLLIMPORT int cfg_setlist(cfg_t *cfg, const char *name, unsigned int nvalues, ...)
 {
 	va_list ap;
+	int rc;
 	cfg_opt_t *opt = cfg_getopt(cfg, name);
 
 	if (!opt || !is_set(CFGF_LIST, opt->flags)) {
@@ -2394,15 +2398,16 @@ DLLIMPORT int cfg_setlist(cfg_t *cfg, const char *name, unsigned int nvalues, ..
 
 	cfg_free_value(opt);
 	va_start(ap, nvalues);
-	cfg_addlist_internal(opt, nvalues, ap);
+	rc = cfg_addlist_internal(opt, nvalues, ap);
 	va_end(ap);
 
-	return CFG_SUCCESS;
+	return (nvalues && rc != CFG_SUCCESS) ? CFG_FAIL : CFG_SUCCESS;
 }
 
 DLLIMPORT int cfg_addlist(cfg_t *cfg, const char *name, unsigned int nvalues, ...)
 {
 	va_list ap;
+	int rc;
 	cfg_opt_t *opt = cfg_getopt(cfg, name);
 
 	if (!opt || !is_set(CFGF_LIST, opt->flags)) {
@@ -2414,10 +2419,10 @@ DLLIMPORT int cfg_addlist(cfg_t *cfg, const char *name, unsigned int nvalues, ..
 	opt->flags &= ~CFGF_RESET;
 
 	va_start(ap, nvalues);
-	cfg_addlist_internal(opt, nvalues, ap);
+	rc = cfg_addlist_internal(opt, nvalues, ap);
 	va_end(ap);
 
-	return CFG_SUCCESS;
+	return (nvalues && rc != CFG_SUCCESS) ? CFG_FAIL : CFG_SUCCESS;
 }
 
 DLLIMPORT cfg_t *cfg_addtsec(cfg_t *cfg, const char *name, const char *title)
